@@ -478,3 +478,59 @@ Section Reachable.
   Lemma reach_repl : Forall (fun p => fst p = snd p) (w_repl w).
   Proof. destruct reach_inv as [_ R]. exact R. Qed.
 End Reachable.
+
+(* ------------------------------------------------------------------ the fence (C08) *)
+Lemma fence_requires_lock c w e w' :
+  lockkind c = Lease -> e_kind e = EFence true -> step c w e = Some w' -> w_lock w = Some (e_actor e).
+Proof.
+  intros LK EK H. unfold step in H. rewrite EK in H.
+  destruct (a_pc (w_actors w (e_actor e))); try discriminate.
+  unfold holds in H. rewrite LK in H.
+  destruct (w_lock w) as [b|]; simpl in H.
+  - destruct (Nat.eqb_spec (e_actor e) b); [congruence | discriminate].
+  - discriminate.
+Qed.
+
+Lemma fence_failed_conflict c w e w' :
+  e_kind e = EFence false -> step c w e = Some w' -> a_pc (w_actors w' (e_actor e)) = PConflict.
+Proof.
+  intros EK H. unfold step in H. rewrite EK in H.
+  destruct (a_pc (w_actors w (e_actor e))); try discriminate.
+  destruct (Bool.eqb false (holds c w (e_actor e))); [|discriminate].
+  inversion H; subst w'. simpl. rewrite upd_same. reflexivity.
+Qed.
+
+(* the only way into PFenced is a fence that succeeded, and the only way to a flip is from PFenced *)
+Lemma fenced_only_by_fence c w e w' a :
+  step c w e = Some w' -> a_pc (w_actors w' a) = PFenced -> a_pc (w_actors w a) <> PFenced ->
+  e_actor e = a /\ e_kind e = EFence true.
+Proof.
+  intros H P N. unfold step in H.
+  destruct (Nat.eq_dec (e_actor e) a) as [E|NE].
+  - split; [exact E|]. subst a.
+    destruct (e_kind e) as [v|ok| |v ok|now|ok|ok| ]; destruct (a_pc (w_actors w (e_actor e))) eqn:PC; try discriminate;
+      try (destruct ok);
+      repeat match goal with
+             | H : (if ?b then _ else _) = Some _ |- _ => destruct b eqn:?; try discriminate
+             | H : match lockkind c with _ => _ end = Some _ |- _ => destruct (lockkind c); try discriminate
+             end;
+      try (inversion H; subst w'; simpl in P; rewrite ?upd_same in P; simpl in P;
+           try discriminate; try congruence; try reflexivity);
+      try (destruct (Nat.ltb _ _) in P; simpl in P; discriminate).
+  - exfalso. apply N.
+    destruct (e_kind e) as [v|ok| |v ok|now|ok|ok| ]; destruct (a_pc (w_actors w (e_actor e))) eqn:PC; try discriminate;
+      try (destruct ok);
+      repeat match goal with
+             | H : (if ?b then _ else _) = Some _ |- _ => destruct b eqn:?; try discriminate
+             | H : match lockkind c with _ => _ end = Some _ |- _ => destruct (lockkind c); try discriminate
+             end;
+      inversion H; subst w'; simpl in P; rewrite ?upd_other in P by (intro; apply NE; congruence); exact P.
+Qed.
+
+Lemma conflict_release_not_success c w e w' :
+  e_kind e = ERelease -> a_pc (w_actors w (e_actor e)) = PConflict -> step c w e = Some w' ->
+  a_pc (w_actors w' (e_actor e)) = PIdle \/ a_pc (w_actors w' (e_actor e)) = PDone Conflict.
+Proof.
+  intros EK PC H. unfold step in H. rewrite EK, PC in H. inversion H; subst w'. simpl. rewrite upd_same.
+  destruct (Nat.ltb _ _); simpl; auto.
+Qed.
